@@ -75,6 +75,11 @@ pub enum Atom {
     /// `unknown("x")` (the library is built with partial evaluation): never a value, so the policy
     /// cannot be evaluated; concrete authorization reports it among the errors and skips it
     Unknown,
+    /// `principal in [A, B]`
+    PrincipalInSet(u8, u8),
+    /// `principal in [A, B, {x: 1}]` / `.. ip("10.0.0.1")]`: a set with a non-entity element is a type
+    /// error whichever element would have matched
+    PrincipalInSetWithNonEntity(u8, u8, bool),
 }
 
 #[derive(Clone, Debug, Serialize, Deserialize, PartialEq)]
@@ -146,6 +151,8 @@ fn atom_text(a: &Atom) -> String {
         Atom::ResHasNAndNEq(v) => format!("resource has n && resource.n == {v}"),
         Atom::NotCtxK => "!context.k".into(),
         Atom::ResourceInLit(e) => format!("resource in {}", uid_txt(*e)),
+        Atom::PrincipalInSet(a, b) => format!("principal in [{}, {}]", uid_txt(*a), uid_txt(*b)),
+        Atom::PrincipalInSetWithNonEntity(a, b, rec) => format!("principal in [{}, {}, {}]", uid_txt(*a), uid_txt(*b), if *rec { "{x: 1}" } else { "ip(\"10.0.0.1\")" }),
         Atom::IfCtxKThenFlagElseErr => "if context.k then principal.flag else 1 + true".into(),
         Atom::Unknown => "unknown(\"x\")".into(),
     }
@@ -275,6 +282,8 @@ impl Model {
                 Some(n) => Ok(n == *v),
             },
             Atom::ResourceInLit(e) => Ok(self.is_in(q.r, *e)),
+            Atom::PrincipalInSet(a, b) => Ok(self.is_in(q.p, *a) || self.is_in(q.p, *b)),
+            Atom::PrincipalInSetWithNonEntity(..) => Err(()),
             Atom::IfCtxKThenFlagElseErr => {
                 if q.k.ok_or(())? {
                     pflag()
@@ -807,7 +816,9 @@ fn gen_scope(rng: &mut Rng, allow_slot: bool) -> ScopeC {
 }
 
 fn gen_atom(rng: &mut Rng) -> Atom {
-    match rng.below(18) {
+    match rng.below(20) {
+        18 => Atom::PrincipalInSet(rng.below(N_NONACT as usize) as u8, rng.below(N_NONACT as usize) as u8),
+        19 => Atom::PrincipalInSetWithNonEntity(rng.below(N_NONACT as usize) as u8, rng.below(N_NONACT as usize) as u8, rng.pct(50)),
         0 | 1 => Atom::True,
         2 => Atom::False,
         3 => Atom::CtxK,
